@@ -89,7 +89,7 @@ theorem lookup_mem {β : Type} (k : String) (l : List (String × β)) (v : β) (
     obtain ⟨a, b⟩ := p
     by_cases hk : k = a
     · subst hk
-      simp [List.lookup_cons] at h
+      simp at h
       subst h
       exact List.mem_cons_self
     · have : (k == a) = false := by simpa using hk
@@ -296,7 +296,7 @@ theorem collectInfo_wf (d : Document) (e : Env) (pt : Option String) (ss : Selec
 
 theorem memoHas_insert_self {κ : Type} [BEq κ] [LawfulBEq κ] (m : List (κ × Bool)) (k : κ) (e : Bool) :
     memoHas ((k, e) :: m) k e = true := by
-  simp [memoHas, List.lookup_cons]
+  simp [memoHas]
 
 theorem memoHas_insert_mono {κ : Type} [BEq κ] [LawfulBEq κ] (m : List (κ × Bool)) (k k' : κ) (e e' : Bool)
     (hnew : memoHas m k e = false) (h : memoHas m k' e' = true) : memoHas ((k, e) :: m) k' e' = true := by
